@@ -457,7 +457,8 @@ bytes remaining (each iteration segments at least one byte). -/
 def segmentLoop : Nat → VSock → Nat → Nat → VSock × Nat
   | 0, v, remaining, _ => (v, remaining)
   | fuel + 1, v, remaining, windowRemaining =>
-    if ¬ (remaining > 0 ∧ windowRemaining > 0) then (v, remaining) else
+    -- (the queue is capped in segments: 16-bit sequence arithmetic must hold however small the segments are - D25)
+    if ¬ (remaining > 0 ∧ windowRemaining > 0 ∧ v.segs.segs.length < MAX_TX_SEGMENTS) then (v, remaining) else
     let (ss', ssz) := v.ss.nextSegmentSize
     let v := { v with ss := ss' }
     let minSs := v.ss.mss
